@@ -186,6 +186,7 @@ package kvql
 //
 //@ func (a *AggregatePlan) Next(ctx *ExecuteCtx) (row []Column, err error)
 //@   props C08
+//@   ensures[C08] norows: err != nil ==> isnil(row)
 //@   requires aggInv(a)
 //@   assigns a.pos, a.skips, a.current, allof(FunctionCallExpr.Result), ctx.Hit, mapof(ctx.FieldCaches)
 //@   ensures[C08] inv: err == nil ==> aggInv(a)
@@ -196,6 +197,7 @@ package kvql
 //
 //@ func (a *AggregatePlan) Batch(ctx *ExecuteCtx) (ret [][]Column, err error)
 //@   props C08
+//@   ensures[C08] norows: err != nil ==> len(ret) == 0
 //@   requires aggInv(a) && PlanBatchSize >= 1
 //@   assigns a.pos, a.skips, a.current, allof(FunctionCallExpr.Result), ctx.Hit, mapof(ctx.FieldCaches)
 //@   ensures[C08] inv: err == nil ==> aggInv(a)
